@@ -93,7 +93,7 @@ SPECS = {
     ),
     "C10": dict(
         fams=[("general", 3), ("order", 1), ("summarize", 1), ("join", 1), ("union", 1)],
-        owns=("san:I4", "san:I5", "san:I6", "san:I7", "san:I10", "san:I14", "reexport:", "sql"),
+        owns=("san:I4", "san:I5", "san:I6", "san:I7", "san:I10", "san:I14", "reexport:", "sql", "print:"),
         quick=700,
         thorough=2500,
         reexport_every=1,
@@ -110,12 +110,13 @@ SPECS = {
         "Cache.from_ast), I8 on every export (columns(), iteration, len, in, dir vs frame), I12 (SqlImpl.export's positional pairing)",
     ),
     "C12": dict(
-        fams=[("general", 3), ("summarize", 1), ("join", 1), ("union", 1), ("order", 1)],
+        fams=[("types", 4), ("general", 2), ("summarize", 1), ("join", 1), ("union", 1), ("order", 1)],
         owns=("type:",),
         quick=900,
         thorough=3000,
         rule="I9 on every export: static dtype of every visible column is a supertype of (concrete: equal to) the exported dtype on Polars, "
-        "same numeric family on SQLite; only all-null columns may be null-typed",
+        "same numeric family on SQLite; only all-null columns may be null-typed. The `types` family draws its source columns from Int8/Int16/"
+        "Int32/Int64/Float32/Float64/Bool/String/Date/Datetime and creates columns through mutate, summarize, join padding, union and collect",
     ),
 }
 
@@ -171,6 +172,8 @@ def run(run_, prop, n, shard_index=0):
             run_.counters["table_shape:" + str(t.get("shape"))] += 1
         if prop == "C09":
             name_probe(run_, prog, out)
+        if prop in ("C10", "C11") and i % 3 == 0:
+            print_probe(run_, prog, out, prop)
         for f in out.findings:
             if f.kind == "harness":
                 run_.counters["harness_problems"] += 1
@@ -182,9 +185,60 @@ def run(run_, prop, n, shard_index=0):
                 return any(g.kind == f0.kind and g.exc == f0.exc and g.backend == f0.backend for g in oo.findings)
 
             mode_env = out.ref_env.get(f.backend if f.backend in out.ref_env else "pol")
-            run_.finding(f, prog, owned=own, reshrink=still, ctx={"ref": mode_env})
+            run_.finding(f, prog, owned=own, reshrink=still, ctx={"ref": mode_env, "real": out.real_env.get(f.backend if f.backend in out.real_env else "pol")})
     run_.inconclusive_if(judged < max(10, n // 4), f"only {judged} probe exports reached the REF oracle")
     return run_
+
+
+def print_probe(run_, prog, out, prop):
+    """C10: printing / repr / show_query / repr(expr) change no pre-existing object (fingerprints before and after).
+    C11: the shape line of print(tbl) and of the HTML repr agrees with len(tbl) and with the exported frame."""
+    import contextlib
+    import io
+    import re
+
+    import pydiverse.transform as pdt
+
+    from .. import monitors as M
+    from ..runner import Finding
+
+    probes = prog.get("probes") or []
+    for be, renv in out.real_env.items():
+        for h in probes[-2:]:
+            tbl = renv.get(h)
+            df = out.frames.get((be, h))
+            if tbl is None or df is None:
+                continue
+            pre = M.fingerprint_table(tbl)
+            buf = io.StringIO()
+            try:
+                with contextlib.redirect_stdout(buf):
+                    text = repr(tbl)
+                    html = tbl._repr_html_()
+                    tbl >> pdt.show_query()
+                    cols = list(tbl)
+                    if cols and not tbl._cache.partition_by:
+                        repr(cols[0])
+                    str(tbl)
+            except Exception as e:  # noqa: BLE001
+                out.findings.append(Finding("print:" + be, be, h, f"printing the table raised {type(e).__name__}: {str(e)[:200]}", verb="repr", exc=type(e).__name__))
+                continue
+            run_.counters["print_probes"] += 1
+            post = M.fingerprint_table(tbl)
+            d = M.diff_nodes(pre["nodes"], post["nodes"])
+            if d or pre["cache"] != post["cache"] or pre["ast_root"] != post["ast_root"]:
+                out.findings.append(Finding("san:I4", be, h, f"repr / _repr_html_ / show_query / repr(col) changed the table: {M._short(d)}", verb="repr"))
+            if prop == "C11" and be == "pol":
+                m = re.search(r"shape: \((\d+), (\d+)\)", text)
+                mh = re.search(r"shape: \((\d+), (\d+)\)", html)
+                for name, mm in (("print", m), ("html", mh)):
+                    if mm is None:
+                        continue
+                    run_.counters["shape_lines_checked"] += 1
+                    if (int(mm.group(1)), int(mm.group(2))) != (df.height, df.width) or int(mm.group(2)) != len(tbl):
+                        out.findings.append(Finding("meta:" + be, be, h, f"{name} shape line {mm.group(0)} vs frame ({df.height}, {df.width}), len(tbl)={len(tbl)}", verb="repr"))
+    for v in M.SAN.drain():
+        out.findings.append(Finding("san:" + v["inv"], "pol", None, v["detail"], verb=v["verb"]))
 
 
 def name_probe(run_, prog, out):
